@@ -96,6 +96,50 @@ pub fn c12(o: &Oracle, thorough: bool, seed: u64, rep: &Report) {
     }
     rep.eval(scalars * 2);
     rep.space("every Unicode scalar value through the rank and suit symbol tables", true, scalars);
+    // ... and through the token parser itself, in each of the two deciding positions (a case fold or
+    // normalisation step inside the parser would not show in the symbol tables)
+    {
+        use ckc_rs::{CKCNumber, PokerCard};
+        let chunks: Vec<u32> = (0..=0x10FFu32).collect();
+        par_chunks(chunks.len(), |ci| {
+            let mut buf = String::new();
+            for cp in (chunks[ci] << 8)..((chunks[ci] + 1) << 8) {
+                let c = match char::from_u32(cp) {
+                    Some(c) => c,
+                    None => continue,
+                };
+                for (first, tail) in [(true, "S"), (true, "♦x"), (false, "K"), (false, "5")] {
+                    buf.clear();
+                    if first {
+                        buf.push(c);
+                        buf.push_str(tail);
+                    } else {
+                        buf.push_str(tail);
+                        buf.push(c);
+                        buf.push('z');
+                    }
+                    let e = token_word(o, &buf);
+                    let got = guarded(|| (CKCNumber::from_index(&buf), ckc_rs::parse::get_rank_and_suit(&buf)));
+                    let ok = match &got {
+                        Ok((w, (r, su))) => {
+                            *w == e && {
+                                let mut it = buf.chars();
+                                let (a, b) = (it.next().unwrap(), it.next().unwrap());
+                                format!("{:?}", r) == rank_name_of(o, a) && format!("{:?}", su) == suit_name_of(o, b)
+                            }
+                        }
+                        Err(_) => false,
+                    };
+                    if !ok {
+                        viol(rep, json!({"op":"parse_card","s":cps(&buf)}), json!({"ok": true, "res": hilo(e)}),
+                             "a token parses to a card exactly when it starts with a rank symbol then a suit symbol");
+                    }
+                }
+            }
+        });
+        rep.eval(scalars * 4);
+        rep.space("every Unicode scalar value as the first and as the second character of a token, through the token parser", true, scalars * 4);
+    }
 
     // every ordered pair of leading characters from the alphabet, with tails
     let mut alpha: Vec<char> = vec![];
@@ -168,9 +212,9 @@ pub fn c12(o: &Oracle, thorough: bool, seed: u64, rep: &Report) {
     }
     rep.space("hand parsers of sizes 2..7 x 0..n+2 tokens x every whitespace character as separator (leading, trailing, doubled)", true, hands);
 
-    // set parser: folds every token
-    for k in 0..200 {
-        let ntok = k % 9;
+    // set parser: folds every token (short texts and texts far longer than a deck)
+    for k in 0..400 {
+        let ntok = if k < 200 { k % 9 } else { 40 + (k * 7) % 160 };
         let mut toks: Vec<String> = vec![];
         for _ in 0..ntok {
             let c = &o.cards[rng.below(52) as usize];
